@@ -232,7 +232,7 @@ func c05Main(r *engine.Run) {
 		r.Nontrivial(fmt.Sprint("zero", i))
 	}
 	r.Sample("zero", shapeCase{Idx: -1, Note: "zero value Geometry{}"})
-	shapes := universe.Shapes(d, w)
+	shapes := append(universe.Shapes(d, w), universe.ShortRingShapes()...)
 	r.States.Add(int64(len(shapes) + len(zeros)))
 	done := r.Parallel(len(shapes), func(i int) {
 		s := shapes[i]
@@ -268,7 +268,7 @@ func c05Replay(r *engine.Run, sub string, raw json.RawMessage) error {
 		c05One(r, zeros[-1-c.Idx], c, 2)
 		return nil
 	}
-	shapes := universe.Shapes(c.D, c.W)
+	shapes := append(universe.Shapes(c.D, c.W), universe.ShortRingShapes()...)
 	g := universe.Build(shapes[c.Idx], geom.CoordinatesType(c.CT), &universe.FloatSupplier{XYAlpha: floatFinite, ZMAlpha: floatFinite, Off: c.Off})
 	c05One(r, g, c, 2)
 	return nil
